@@ -21,7 +21,7 @@ Definition obind {A B} (o : outcome A) (f : A -> outcome B) : outcome B :=
   match o with Ok a => f a | Err e => Err e | Panic k => Panic k end.
 Notation "'do' x <- o ; f" := (obind o (fun x => f))
   (at level 200, x name, o at level 100, f at level 200, right associativity).
-Notation "'do' ''(' x , y ')' <- o ; f" := (obind o (fun p => let '(x, y) := p in f))
+Notation "'do' ( x , y ) <- o ; f" := (obind o (fun p => let '(x, y) := p in f))
   (at level 200, x name, y name, o at level 100, f at level 200, right associativity).
 
 Definition is_panic {A} (o : outcome A) : bool :=
